@@ -138,15 +138,14 @@ theorem dominating_bridge (o : FOps α) (a b : List α) :
   case hk => intro ob; rfl
   case hb =>
     intro i ob
-    simp only [domStep, rd]
-    cases a[i]? <;> cases b[i]? <;> simp only [] <;> try rfl
-    all_goals (
-      rename_i x y
-      have hx := sgt_slt_excl key x y
-      have hy := sgt_slt_excl key y x
-      simp only [sgt, slt, sge, sle, seq, sne, decide_eq_true_eq] at *
-      repeat' split
-      all_goals first | rfl | omega)
+    simp only [domStep, rd] <;>
+      cases a[i]? <;> cases b[i]? <;> simp only [] <;> (try rfl) <;>
+      (rename_i x y
+       have hx := sgt_slt_excl key x y
+       have hy := sgt_slt_excl key y x
+       simp only [sgt, slt, sge, sle, seq, sne, decide_eq_true_eq] at *
+       repeat' split
+       all_goals first | rfl | omega)
   case init =>
     congr 2
     cases a <;> cases b <;> simp
@@ -194,14 +193,14 @@ theorem zipLoop_of_body (op : F → F → F) (a b : List F) (n : Nat)
   subst hn; rw [e1, e2, zipLoop_eq]; unfold vzipStep; cases vzip op a b <;> rfl
 
 /-- per-iteration equivalence with `zipBody` (reads in either order, then the write) -/
-syntax "c18_zip_step" : tactic
+syntax "c18_zip_step" ident : tactic
 macro_rules
-  | `(tactic| c18_zip_step) => `(tactic| (
+  | `(tactic| c18_zip_step $b:ident) => `(tactic| (
       intro i s
       first
         | rfl
         | (simp only [zipBody, rd, wr]
-           cases hb : (_ : List _)[i]? <;> cases hs : s[i]? <;> simp_all)))
+           cases hb : ($b)[i]? <;> cases hs : s[i]? <;> simp_all)))
 
 theorem addAssign_bridge (c : Cmp F) (o : FOps F) (a b : List F) :
     Gen.addAssign c o a b = vadd o a b := by
@@ -210,7 +209,7 @@ theorem addAssign_bridge (c : Cmp F) (o : FOps F) (a b : List F) :
   refine zipLoop_of_body o.add a b _ _ _ ?hn ?hb ?hk
   case hn => first | rfl | omega
   case hk => intro s; rfl
-  case hb => c18_zip_step
+  case hb => c18_zip_step b
 
 theorem subAssign_bridge (c : Cmp F) (o : FOps F) (a b : List F) :
     Gen.subAssign c o a b = vsub o a b := by
@@ -219,7 +218,7 @@ theorem subAssign_bridge (c : Cmp F) (o : FOps F) (a b : List F) :
   refine zipLoop_of_body o.sub a b _ _ _ ?hn ?hb ?hk
   case hn => first | rfl | omega
   case hk => intro s; rfl
-  case hb => c18_zip_step
+  case hb => c18_zip_step b
 
 theorem mulAssign_bridge (c : Cmp F) (o : FOps F) (a b : List F) :
     Gen.mulAssign c o a b = vmul o a b := by
@@ -228,7 +227,7 @@ theorem mulAssign_bridge (c : Cmp F) (o : FOps F) (a b : List F) :
   refine zipLoop_of_body o.mul a b _ _ _ ?hn ?hb ?hk
   case hn => first | rfl | omega
   case hk => intro s; rfl
-  case hb => c18_zip_step
+  case hb => c18_zip_step b
 
 theorem opAdd_bridge (c : Cmp F) (o : FOps F) (a b : List F) : Gen.opAdd c o a b = vadd o a b := by
   unfold Gen.opAdd; rw [addAssign_bridge]; cases vadd o a b <;> rfl
@@ -359,11 +358,9 @@ theorem almostEqual_bridge (c : Cmp F) (o : FOps F) (a b : List F) (e : F) :
   case hk => intro u; rfl
   case hb =>
     intro i u
-    simp only [aeqStep, rd]
-    cases a[i]? <;> cases b[i]? <;> simp only [] <;> try rfl
-    all_goals (
-      rename_i x y
-      cases aeqSpec c o x y e <;> rfl)
+    simp only [aeqStep, rd] <;>
+      cases a[i]? <;> cases b[i]? <;> simp only [] <;> (try rfl) <;>
+      (rename_i x y; cases aeqSpec c o x y e <;> rfl)
 
 theorem copyInfix_go_false (fmt : F → String) (sep out : String) (x : F) (xs : List F) :
     copyInfix.go fmt sep false (out ++ fmt x) xs = out ++ joinSep sep ((x :: xs).map fmt) := by
